@@ -248,9 +248,10 @@ func (p *parser) parseTokendef() *TokenDef {
 					value = intVar
 				}
 
-			} else if p.current.Is(Charater) || p.current.Is(StringKind) { // get alias
+			} else if p.current.Is(StringKind) { // get alias
 				id.Alias = p.current.Value
 			} else {
+				// anything else, a character literal included, is the next token of the list
 				p.backup()
 			}
 			id.Value = value
